@@ -115,6 +115,8 @@ var SupervisorSchema = ssam.BasicSchema.Merge(
 		// errors
 
 		ssS.ErrWorker: {
+			// every error has to reach the handler (error counting)
+			Multi:   true,
 			Require: S{ssS.Exception},
 			Add:     S{ssS.NormalizingPool, ssS.Heartbeat},
 		},
